@@ -73,6 +73,7 @@ let runners : (string * (z list -> z list)) list = [
   "lim", run_lim;
   "skip", run_skip;
   "join", run_join;
+  "joinr", run_joinr;
   "rvec", run_rvec;
   "fnode", run_fnode;
   "pull", run_pull;
